@@ -5,7 +5,7 @@
    results pulled.  LEVEL: partial -- the property is about WHEN CPython runs user code; these theorems bound the demand
    of the MODEL, the event-for-event comparison of harness/c10.py is what connects the model to CPython's generators. *)
 From Coq Require Import List ZArith Bool Arith.
-From Krrood Require Import Base.Sx Eql.Syntax Eql.Sat Eql.Eval Eql.ShowSpec Eql.TraceSpec Eql.Trace Eql.TraceProofs.
+From Krrood Require Import Base.Sx Eql.Syntax Eql.Sat Eql.Eval Eql.ShowSpec Eql.TraceSpec Eql.Trace Eql.TraceProofs Eql.TraceDemand.
 Import ListNotations.
 Open Scope nat_scope.
 
@@ -27,6 +27,17 @@ Proof. intros W D q n. split; [apply trace_k_prefix_S | apply trace_k_prefix_ful
 Theorem C10_pulls_prefix : forall W D q n x,
   pulls_in_order x (trace_k W D q n) /\ pulls_in_order x (trace_full W D q).
 Proof. intros W D q n x. split; [apply trace_k_pulls_in_order | apply trace_full_pulls_in_order]. Qed.
+
+(* consuming pulls only what it needs.  Inside F10 (quantifier-free, no or_ over different variable sets, every selected
+   variable bound by every true result of the condition -- a syntactic, decidable class, [f10]): at every moment a result
+   is handed out, in the n-stopped run for EVERY n, a domain has been exhausted ([End x] logged) only if some variable
+   that was pulled from BEFORE x was first pulled from has itself been pulled from at least twice -- i.e. only because
+   an enclosing loop moved past its first element, which is when a lazy nested-loop enumerator (variables in first-use
+   order, inner domains replayed from a cache) exhausts an inner domain too.  In particular the variable used first is
+   never exhausted while results are still being handed out, and before any loop has advanced no domain is. *)
+Theorem C10_demand : forall W D q n, f10 q = true ->
+  demand_ok (trace_k W D q n) /\ demand_ok (trace_full W D q).
+Proof. intros W D q n H. split; [apply trace_k_demand | apply trace_full_demand]; exact H. Qed.
 
 (* the executable Spec the harness evaluates on the REAL engine's logs decides exactly these predicates *)
 Theorem C10_spec_exec : forall t a b x,
@@ -79,6 +90,7 @@ Print Assumptions C10_bridge.
 Print Assumptions C10_prefix_rows.
 Print Assumptions C10_prefix_trace.
 Print Assumptions C10_pulls_prefix.
+Print Assumptions C10_demand.
 Print Assumptions C10_spec_exec.
 Print Assumptions C10_refuted_product.
 Print Assumptions C10_refuted_product_unbound.
